@@ -100,6 +100,8 @@ func c15Strings(tier string) []c15String {
 		{ID: "index-two-spaces", Val: "m4rk  desc", Hostile: true, Only: c15ListClasses},
 		{ID: "index-direction-comma", Val: "m4rk asc,x", Hostile: true, Only: c15ListClasses},
 		{ID: "index-tab", Val: "m4rk\tdesc); --", Hostile: true, Only: c15ListClasses},
+		// a longer legitimate-looking ordering clause in front of the tail: catches validators that check the first few words
+		{ID: "index-direction-nulls-tail", Val: "desc nulls last ); drop table m4rk;--", Hostile: true, DirTail: true, Only: c15ListClasses},
 		{ID: "control-hyphen", Val: "m4rk_ok-1"},
 		{ID: "control-plain", Val: "m4rk_ok1"},
 	}
